@@ -1,9 +1,152 @@
-(* C01 -- property theorems (statements + exact only). *)
-From PV Require Import Lib.Base Gen.C01_ClassTree Model.C01 Proofs.C01_tree.
+(* C01 -- a part is a consistent time-ordered collection under any edit history.
+   Statements + `exact` only; proofs live in Proofs/C01_*.v.
+   The model (Model/C01.v: step, iter_all, ...) is the one the lock-step correspondence evaluates
+   against the real Part after every operation; Inv / valid_op / abs / spec_* are in Model/C01_Spec.v;
+   ct_* (Gen/C01_ClassTree.v) is the TimedObject class tree reflected from partitura.score on every run. *)
+From PV Require Import Lib.Base Gen.C01_ClassTree Model.C01 Model.C01_Spec
+  Proofs.C01_tree Proofs.C01_inv Proofs.C01_main Proofs.C01_query.
+From Coq Require Import Sorting.Sorted.
 
+(* ------------------------------------------------------------------ O1: the invariant, every reachable state *)
+Theorem inv_init : forall q0, Inv (init q0).
+Proof. exact inv_init_lemma. Qed.
+Print Assumptions inv_init.
+
+(* any operation on valid arguments (incl. a bare get_or_add_point) keeps everything but "no empty point" *)
+Theorem step_invw : forall p o, InvW p -> valid_op p o -> InvW (fst (step p o)).
+Proof. exact step_invw_lemma. Qed.
+Print Assumptions step_invw.
+
+(* ... and also "no empty point" unless it is get_or_add_point at a time that has no point yet *)
+Theorem step_inv : forall p o, Inv p -> valid_op p o -> strict_op p o -> Inv (fst (step p o)).
+Proof. exact step_inv_lemma. Qed.
+Print Assumptions step_inv.
+
+(* every state reachable from a new part by any finite history of valid operations *)
+Theorem run_inv : forall q0 ops,
+  valid_run (init q0) ops -> strict_run (init q0) ops -> Inv (run (init q0) ops).
+Proof. exact reachable_inv_lemma. Qed.
+Print Assumptions run_inv.
+
+Theorem run_invw : forall q0 ops, valid_run (init q0) ops -> InvW (run (init q0) ops).
+Proof. exact reachable_invw_lemma. Qed.
+Print Assumptions run_invw.
+
+(* prev / next are the true neighbours, stated by position in the timeline *)
+Theorem links_by_index : forall p, InvW p -> forall i q, nth_error (points p) i = Some q ->
+  pprev q = match i with O => None | S j => option_map pt (nth_error (points p) j) end /\
+  pnext q = option_map pt (nth_error (points p) (S i)).
+Proof. exact links_by_index_lemma. Qed.
+Print Assumptions links_by_index.
+
+(* the part is exactly the collection of the registered objects: a time point exists iff something is
+   registered there (which objects it lists is clause iw_reg of the invariant) *)
+Theorem points_exactly : forall p, Inv p -> forall t,
+  (exists q, In q (points p) /\ pt q = t) <-> (exists o, ostart p o = Some t \/ oend p o = Some t).
+Proof. exact points_exactly_lemma. Qed.
+Print Assumptions points_exactly.
+
+(* ------------------------------------------------------------------ O4: totality, no partial update *)
+Theorem step_total : forall p o, InvW p -> valid_op p o -> snd (step p o) = OutOk.
+Proof. exact step_total_lemma. Qed.
+Print Assumptions step_total.
+
+Theorem run_total : forall q0 ops, valid_run (init q0) ops ->
+  forall pre o post, ops = pre ++ o :: post -> snd (step (run (init q0) pre) o) = OutOk.
+Proof. exact reachable_total_lemma. Qed.
+Print Assumptions run_total.
+
+(* refinement: the registered start/end of every object and the quarter duration in force evolve as the
+   three-line abstract specification says (so an operation is never half applied) *)
+Theorem step_refines : forall p o, InvW p -> valid_op p o ->
+  (forall x, a_start (abs (fst (step p o))) x = spec_start (abs p) o x) /\
+  (forall x, a_end (abs (fst (step p o))) x = spec_end (abs p) o x) /\
+  (forall s, 0 <= s -> a_qd (abs (fst (step p o))) s = spec_qd (abs p) o s).
+Proof. exact step_refines_lemma. Qed.
+Print Assumptions step_refines.
+
+(* ------------------------------------------------------------------ O3: set_quarter_duration *)
+Theorem set_qd_spec : forall p t q, InvW p -> 0 <= t ->
+  let p' := set_quarter_duration p t q in
+  (forall s, 0 <= s ->
+     qd_at (qtab p') s = if in_span t (next_change t (qtab p)) s then q else qd_at (qtab p) s) /\
+  (forall x, In x (points p') -> pq x = qd_at (qtab p') (pt x)) /\
+  map links_and_regs (points p') = map links_and_regs (points p) /\
+  ostart p' = ostart p /\ oend p' = oend p /\
+  (forall e, In e (qtab p) -> In (fst e) (map fst (qtab p'))) /\
+  (forall e, In e (qtab p') -> fst e = t \/ In (fst e) (map fst (qtab p))).
+Proof. exact set_qd_spec_lemma. Qed.
+Print Assumptions set_qd_spec.
+
+(* ------------------------------------------------------------------ O2: queries *)
+(* iter_all, every cls / start / end / include_subclasses / mode: precisely the registered objects of the
+   class (or its subclasses) in the half-open interval, each once, in time order *)
+Theorem iter_all_spec : forall p c a b sub mode, InvW p ->
+  (forall t o, In (t, o) (iter_all p c a b sub mode) <->
+               oref mode p o = Some t /\ in_range a b t /\ cls_match c sub o) /\
+  NoDup (iter_all p c a b sub mode) /\
+  StronglySorted Z.le (map fst (iter_all p c a b sub mode)).
+Proof. exact iter_all_spec_lemma. Qed.
+Print Assumptions iter_all_spec.
+
+Theorem iter_next_spec : forall p t c eq sub, InvW p -> (exists q, In q (points p) /\ pt q = t) ->
+  iter_next p t c eq sub = iter_all p c (Some (if eq then t else t + 1)) None sub SStart.
+Proof. exact iter_next_spec_lemma. Qed.
+Print Assumptions iter_next_spec.
+
+Theorem iter_prev_spec : forall p t c eq sub, InvW p -> (exists q, In q (points p) /\ pt q = t) ->
+  iter_prev p t c eq sub =
+  flat_map (tagged SStart c sub) (rev (before (if eq then t + 1 else t) (points p))).
+Proof. exact iter_prev_spec_lemma. Qed.
+Print Assumptions iter_prev_spec.
+
+Theorem first_last_spec : forall p, InvW p ->
+  (points p = [] -> first_point p = None /\ last_point p = None) /\
+  (forall q, In q (points p) ->
+     exists f l, first_point p = Some f /\ last_point p = Some l /\ f <= pt q <= l /\
+                 (exists qf, In qf (points p) /\ pt qf = f) /\ (exists ql, In ql (points p) /\ pt ql = l)).
+Proof. exact first_last_spec_lemma. Qed.
+Print Assumptions first_last_spec.
+
+Theorem get_point_spec : forall p t, InvW p ->
+  match get_point t (points p) with
+  | Some q => In q (points p) /\ pt q = t
+  | None => forall q, In q (points p) -> pt q <> t
+  end.
+Proof. exact get_point_spec_lemma. Qed.
+Print Assumptions get_point_spec.
+
+(* ------------------------------------------------------------------ the class tree (complete finite domain) *)
+(* iter_subclasses over the reflected __subclasses__ lists = the strict descendants read off __mro__,
+   each exactly once -- for every class of the TimedObject tree (diamonds included) *)
 Theorem subclasses_closed : forall c, valid_cls c ->
   NoDup (iter_subclasses c) /\
   (forall d, In d (iter_subclasses c) <-> strict_descendant d c) /\
   ~ In c (iter_subclasses c).
 Proof. exact subclasses_closed_lemma. Qed.
 Print Assumptions subclasses_closed.
+
+(* the model's iter_subclasses returns what partitura's iter_subclasses returned, for every class *)
+Theorem itersub_matches_impl : forall c, valid_cls c -> zlookup c ct_itersub = Some (iter_subclasses c).
+Proof. exact itersub_matches_impl_lemma. Qed.
+Print Assumptions itersub_matches_impl.
+
+Theorem diamond_once :
+  match cls_named "Direction", cls_named "ConstantLoudnessDirection", cls_named "LoudnessDirection", cls_named "ConstantDirection" with
+  | Some d, Some cl, Some l, Some c =>
+      count_occ Z.eq_dec (iter_subclasses d) cl = 1%nat /\ In cl (subs_of l) /\ In cl (subs_of c)
+  | _, _, _, _ => False
+  end.
+Proof. exact diamond_lemma. Qed.
+Print Assumptions diamond_once.
+
+(* ------------------------------------------------------------------ the hypotheses are satisfiable *)
+(* a reachable 4-point part with shared points, a replaced quarter duration and a removal meets Inv *)
+Theorem inv_nontrivial :
+  Inv (run (init 1) ex_ops) /\
+  map (fun q => (pt q, pq q, pprev q, pnext q, List.length (pstart q), List.length (pend q))) (points (run (init 1) ex_ops))
+  = [(0, 1, None, Some 4, 1%nat, 0%nat); (4, 1, Some 0, Some 8, 1%nat, 2%nat);
+     (8, 1, Some 4, Some 12, 1%nat, 1%nat); (12, 1, Some 8, None, 0%nat, 1%nat)] /\
+  qtab (run (init 1) ex_ops) = [(0, 1); (4, 1)].
+Proof. exact inv_nontrivial_lemma. Qed.
+Print Assumptions inv_nontrivial.
